@@ -8,6 +8,7 @@ package criteria_concealment
 // the scaling of the concealed criterion's range: as requested (1 when absent); only 0 is rejected - a negative one mirrors the range
 //@ func parseProps
 //@   property C18 C20 C09 C01 C07
+//@   indexsafe
 //@   panics_iff [scaling_zero] decoded_has(*props, "NewCriterionScaling") && decoded_real(*props, "NewCriterionScaling") == 0.0
 //@   ensures [scaling_nonzero] result.NewCriterionScaling != 0.0
 //@   ensures [as_requested] fresh(result) && result.NewCriterionScaling == (decoded_has(*props, "NewCriterionScaling") ? decoded_real(*props, "NewCriterionScaling") : 1.0)
@@ -15,11 +16,13 @@ package criteria_concealment
 
 //@ func getCriterionValueRange
 //@   property C18 C07 C09 C01 C20
+//@   indexsafe
 //@   ensures [scaled_reference_range] fresh(result) && (referenceCriterion.ValuesRange != nil ==>
 //@             result.Min == utils.scaledMin(*referenceCriterion.ValuesRange, scaling) && result.Max == utils.scaledMax(*referenceCriterion.ValuesRange, scaling))
 
 //@ func (*CriteriaConcealment).generateNewCriterionBase
 //@   property C18 C07 C09 C01 C20
+//@   indexsafe
 //@   requires model.distinctCriteria(originalParams.Criteria) && len(originalParams.Criteria) > 0
 //@   requires model.validParams(*listener, originalParams.MethodParameters) && model.coversAll(*listener, originalParams.MethodParameters, originalParams.Criteria)
 //@   ensures [gain] result.newCriterion != nil && result.newCriterion.Type == model.Gain && result.newCriterion.ValuesRange != nil
@@ -36,6 +39,7 @@ package criteria_concealment
 
 //@ func assignNewCriterionToAlternatives
 //@   property C18 C07 C09 C01 C20
+//@   indexsafe
 //@   requires newCriterion.ValuesRange != nil
 //@   ensures [shape] fresh(result0) && fresh(*result0) && len(*result0) == len(resParams.ConsideredAlternatives) + len(resParams.NotConsideredAlternatives)
 //@   ensures [extended_members] forall k int :: 0 <= k && k < len(*result0) ==> exists j int :: 0 <= j && j < len(*result0)
@@ -44,6 +48,7 @@ package criteria_concealment
 
 //@ func generateCriterionValuesForAlternatives
 //@   property C18 C07 C09 C01 C20
+//@   indexsafe
 //@   requires newCriterion.ValuesRange != nil
 //@   requires forall i int, j int :: 0 <= i && i < j && j < len(resParams.ConsideredAlternatives) ==> resParams.ConsideredAlternatives[i].Id != resParams.ConsideredAlternatives[j].Id
 //@   requires forall i int, j int :: 0 <= i && i < j && j < len(resParams.NotConsideredAlternatives) ==> resParams.NotConsideredAlternatives[i].Id != resParams.NotConsideredAlternatives[j].Id
@@ -54,6 +59,7 @@ package criteria_concealment
 
 //@ func (*CriteriaConcealment).addCriterion
 //@   property C18 C07 C01 C09 C20
+//@   indexsafe
 //@   requires model.coherent(*listener, *resParams) && model.coherent(*listener, *originalParams) && len(originalParams.Criteria) > 0
 //@   requires forall i int, j int :: 0 <= i && i < j && j < len(resParams.ConsideredAlternatives) ==> resParams.ConsideredAlternatives[i].Id != resParams.ConsideredAlternatives[j].Id
 //@   requires forall i int, j int :: 0 <= i && i < j && j < len(resParams.NotConsideredAlternatives) ==> resParams.NotConsideredAlternatives[i].Id != resParams.NotConsideredAlternatives[j].Id
@@ -72,6 +78,7 @@ package criteria_concealment
 //@ func (*CriteriaConcealment).Apply
 //@   refines model.Bias.Apply with actsOn=concealmentActs
 //@   property C18 C07 C01 C09 C20
+//@   indexsafe
 //@   requires model.coherent(*listener, *current) && model.coherent(*listener, *original) && len(original.Criteria) > 0
 //@   requires forall i int, j int :: 0 <= i && i < j && j < len(current.ConsideredAlternatives) ==> current.ConsideredAlternatives[i].Id != current.ConsideredAlternatives[j].Id
 //@   requires forall i int, j int :: 0 <= i && i < j && j < len(current.NotConsideredAlternatives) ==> current.NotConsideredAlternatives[i].Id != current.NotConsideredAlternatives[j].Id
@@ -89,6 +96,7 @@ package criteria_concealment
 // the registered object holds exactly the collaborators it was built with, each in its own role
 //@ func NewCriteriaConcealment
 //@   property C18 C09 C20
+//@   indexsafe
 //@   nopanic
 //@   ensures [wired_as_given] result != nil && fresh(result) && result.generatorSource == generatorSource && result.referenceCriterionManager == referenceCriterionManager
 
@@ -110,10 +118,12 @@ package criteria_concealment
 // ---- registered names (what a request must say to select this object; what error messages list)
 //@ func (*CriteriaConcealment).Identifier
 //@   property C18 C20 C01 C03 C04 C05 C06 C07 C08 C09 C11 C12 C13 C14 C15 C16 C17 C19
+//@   indexsafe
 //@   nopanic
 //@   ensures [name] result == "criteriaConcealment"
 
 //@ func newConcealedCriterionName
 //@   property C18 C07 C01 C09 C20
+//@   indexsafe
 //@   ensures [base_name_then_count] result == (model.cntp(*criteria, "__concealedCriterion__", len(*criteria)) == 0 ? "__concealedCriterion__"
 //@             : "__concealedCriterion__" + itoa(model.cntp(*criteria, "__concealedCriterion__", len(*criteria))))
